@@ -1,0 +1,56 @@
+// Copyright 2020-2025 Buf Technologies, Inc.
+//
+// Licensed under the Apache License, Version 2.0 (the "License");
+// you may not use this file except in compliance with the License.
+// You may obtain a copy of the License at
+//
+//      http://www.apache.org/licenses/LICENSE-2.0
+//
+// Unless required by applicable law or agreed to in writing, software
+// distributed under the License is distributed on an "AS IS" BASIS,
+// WITHOUT WARRANTIES OR CONDITIONS OF ANY KIND, either express or implied.
+// See the License for the specific language governing permissions and
+// limitations under the License.
+
+//go:build verif
+
+package bufcli
+
+// Contracts for the gocv verifier (see /verif/DESIGN.md), author ca-W. Comment-only.
+// ghost.w_authSources (the ordered source list bufconnect.NewAuthorizationInterceptorProvider was given), w_elemOK
+// (well-formed token@host element): /verif/specs/C19_C20_extra.spec.
+//
+// C19 "the first configured source wins deterministically ... malformed token strings are rejected":
+// the registry client configuration installs an authorization interceptor over exactly two sources in this order:
+// (1) the BUF_TOKEN environment variable of the container, (2) the .netrc file located through the same container and
+// read with netrc.GetMachineForName. (The interceptor, verified in bufconnect, asks them in list order and stops at the
+// first that has a token for the captured address.) A malformed BUF_TOKEN fails the whole configuration: no client
+// configuration exists that would silently fall back to .netrc or send a partial token.
+//@ func NewConnectClientConfig(container) (r, err)
+//@   property C19
+//@   modifies heap, ghost.w_authSources
+//@   ensures malformed-BUF_TOKEN-fails-the-configuration: (contains(container.Env("BUF_TOKEN"), ",") || contains(container.Env("BUF_TOKEN"), "@")) && (exists j int :: 0 <= j && j < len(strings.Split(container.Env("BUF_TOKEN"), ",")) && !w_elemOK(strings.Split(container.Env("BUF_TOKEN"), ",")[j])) ==> err != nil && r == nil
+//@   ensures error-means-no-configuration: err != nil ==> r == nil
+//@   ensures env-first-then-netrc: err == nil ==> len(ghost.w_authSources) == 2 && typeOf(ghost.w_authSources[1]) == typeId(*bufconnect.netrcTokenProvider) && (typeOf(ghost.w_authSources[0]) == typeId(bufconnect.nopTokenProvider) || typeOf(ghost.w_authSources[0]) == typeId(*bufconnect.singleTokenProvider) || typeOf(ghost.w_authSources[0]) == typeId(*bufconnect.multipleTokenProvider))
+//@   ensures env-source-kind: err == nil ==> (container.Env("BUF_TOKEN") == "" ==> typeOf(ghost.w_authSources[0]) == typeId(bufconnect.nopTokenProvider)) && (container.Env("BUF_TOKEN") != "" && !contains(container.Env("BUF_TOKEN"), ",") && !contains(container.Env("BUF_TOKEN"), "@") ==> typeOf(ghost.w_authSources[0]) == typeId(*bufconnect.singleTokenProvider))
+//@   assert before "return newConnectClientConfigWithOptions" env-source-is-BUF_TOKEN: container.Env("BUF_TOKEN") != "" && !contains(container.Env("BUF_TOKEN"), ",") && !contains(container.Env("BUF_TOKEN"), "@") ==> cast(*bufconnect.singleTokenProvider, envTokenProvider).token == container.Env("BUF_TOKEN") && cast(*bufconnect.singleTokenProvider, envTokenProvider).setBufTokenEnvVar
+//@   assert before "return newConnectClientConfigWithOptions" netrc-source-reads-the-users-netrc: typeOf(netrcTokenProvider) == typeId(*bufconnect.netrcTokenProvider) && cast(*bufconnect.netrcTokenProvider, netrcTokenProvider).container == container && cast(*bufconnect.netrcTokenProvider, netrcTokenProvider).getMachineForName == netrc.GetMachineForName
+//@   canary ensures err != nil
+//
+// An explicit token (buf registry login): the single source is built from that string, nothing from the environment.
+//@ func NewConnectClientConfigWithToken(container, token) (r, err)
+//@   property C19
+//@   modifies heap, ghost.w_authSources
+//@   ensures malformed-token-fails-the-configuration: (contains(token, ",") || contains(token, "@")) && (exists j int :: 0 <= j && j < len(strings.Split(token, ",")) && !w_elemOK(strings.Split(token, ",")[j])) ==> err != nil && r == nil
+//@   ensures error-means-no-configuration: err != nil ==> r == nil
+//@   ensures only-the-given-token: err == nil ==> len(ghost.w_authSources) == 1 && (token == "" ==> typeOf(ghost.w_authSources[0]) == typeId(bufconnect.nopTokenProvider)) && (token != "" && !contains(token, ",") && !contains(token, "@") ==> typeOf(ghost.w_authSources[0]) == typeId(*bufconnect.singleTokenProvider))
+//@   assert before "return newConnectClientConfigWithOptions" source-is-the-token: token != "" && !contains(token, ",") && !contains(token, "@") ==> cast(*bufconnect.singleTokenProvider, tokenProvider).token == token && !cast(*bufconnect.singleTokenProvider, tokenProvider).setBufTokenEnvVar
+//
+// The common part: an error of any step means no configuration. Closure 0 is the address mapper: the client dials the
+// SAME host it was made for, only prefixed with the scheme (connectclient.Make applies it after the authorization
+// interceptor captured the bare host).
+//@ func newConnectClientConfigWithOptions(container, opts) (r, err)
+//@   property C19
+//@   modifies heap
+//@   ensures error-means-no-configuration: err != nil ==> r == nil
+//@   closure 0 ensures same-host-with-scheme: r == "http://" + address || r == "https://" + address
